@@ -11,3 +11,5 @@ var hookCount int64
 func countingHook() {}
 
 func recordEnters(f func()) []string { f(); return nil }
+
+func recordParse(f func()) []interface{} { f(); return nil }
